@@ -30,3 +30,17 @@ Theorem C10_alap : forall p c, t_leaf (task_of p c) = false -> t_leaves (task_of
   (alap_dates p c = None -> exists t, In t (t_leaves (task_of p c)) /\ alap_leaf_dates p t = None).
 Proof. exact alap_container_summary. Qed.
 Print Assumptions C10_alap.
+
+(* ---- second granularity (Model/SubSlot.v) *)
+Require Import SP.Model.SubSlot SP.Proofs.SubSlotMore.
+From Coq Require Import ZArith.
+Theorem C10_subslot : forall p c, s_leaf (stask_of p c) = false -> s_leaves (stask_of p c) <> nil ->
+  let st := sschedule p in
+  (forall s e, sdates p st c = Some (s, e) ->
+     (forall t, In t (s_leaves (stask_of p c)) -> exists d, sleaf_dates st t = Some d) /\
+     (forall t s' e', In t (s_leaves (stask_of p c)) -> sleaf_dates st t = Some (s', e') -> (s <= s')%Z /\ (e' <= e)%Z) /\
+     (exists t s' e', In t (s_leaves (stask_of p c)) /\ sleaf_dates st t = Some (s', e') /\ s' = s) /\
+     (exists t s' e', In t (s_leaves (stask_of p c)) /\ sleaf_dates st t = Some (s', e') /\ e' = e)) /\
+  (sdates p st c = None -> exists t, In t (s_leaves (stask_of p c)) /\ sleaf_dates st t = None).
+Proof. exact subslot_container. Qed.
+Print Assumptions C10_subslot.
